@@ -155,7 +155,13 @@ class Session(BusSession):
                 elif sa[0] != sb[0]:
                     reasons.add('primary-owner')
                 else:
-                    reasons.add('queue-order')
+                    # The recorded finding is exactly this: a RequestName with REPLACE_EXISTING whose caller does NOT become
+                    # the primary owner, after which only the CALLER's position differs (implementation: second place).
+                    # Any other difference in queue order is a different defect and gets its own fingerprint.
+                    me = '@' + str(op[1]) if len(op) > 1 else None
+                    known_shape = (op[0] == 'req' and len(op) > 3 and (op[3] & 2) and sb[0] != me and me in sa and sa.index(me) == 1
+                                   and [x for x in a if x.split(':')[0] != me] == [x for x in b if x.split(':')[0] != me])
+                    reasons.add('queue-order' if known_shape else 'queue-order-other')
             reason = sorted(reasons)[0] if len(reasons) == 1 else 'multiple:' + '+'.join(sorted(reasons))
             v = Violation('state-differs', reason, 'after %r the implementation\'s registry is %r, the specification gives %r' % (op, impl, model), None)
             if v.fingerprint in known_fingerprints('C04'):
